@@ -50,8 +50,43 @@ def run(replay=None):
             ck.impl_violation("rejected-call-changed-variable", "%s: the interface variable is no longer nil after the rejected call" % tag, r)
         if not r["image_pristine_after_reset"]:
             ck.impl_violation("not-pristine-after-reset", "%s: the image is not pristine after Reset" % tag, r)
+    # interface callbacks of generated shapes: proxy.Interface against Model/Errors.iface_imp_check, evaluated in Coq
+    shapes = [r for r in vlib.read_jsonl(obs) if r.get("kind") == "iface-shape"]
+    if shapes:
+        L = ["From Coq Require Import List ZArith Bool. Import ListNotations.", "From Goom Require Import Model.Errors. Open Scope Z_scope.",
+             "Definition ok (m i : sig) : bool := match iface_imp_check m i with SigOk => true | _ => false end.",
+             "Definition cases : list (Z * sig * sig * bool) := ["]
+        items = []
+        for i, r in enumerate(shapes):
+            items.append("  (%d, {| s_ins := %s; s_outs := %s |}, {| s_ins := %s; s_outs := %s |}, %s)" % (
+                i, vlib.zlist(r["m_ins"]), vlib.zlist(r["m_outs"]), vlib.zlist(r["ins"]), vlib.zlist(r["outs"]), "true" if r["verdict"] == "accepted" else "false"))
+        L.append(";\n".join(items))
+        L.append("].")
+        L.append("Definition M := Eval vm_compute in map (fun c => fst (fst (fst c))) (filter (fun c => let '(i, m, imp, acc) := c in negb (Bool.eqb (ok m imp) acc)) cases).")
+        L.append("Print M.")
+        rc2, out2 = vlib.coq_eval("c13_iface_shapes", "\n".join(L) + "\n", ck.wd, timeout=600)
+        import re
+        mm = re.search(r"M\s*=\s*(\[.*?\])\s*:\s*list", out2.replace("\n", " "))
+        if rc2 != 0 or not mm:
+            ck.obligation_broken("correspondence C13 interface shapes (coqc evaluation failed)", out2[-1500:])
+        else:
+            bad = [int(x) for x in re.findall(r"-?\d+", mm.group(1))]
+            for i in bad[:3]:
+                r = shapes[i]
+                if r["verdict"] == "accepted":
+                    ck.impl_violation("not-rejected:interface-callback-shape", "proxy.Interface accepts a callback with parameter sizes %s / result sizes %s for method %s (parameters %s, results %s)" % (
+                        r["ins"], r["outs"], r["method"], r["m_ins"], r["m_outs"]), r)
+                else:
+                    ck.impl_violation("well-formed-interface-callback-refused", "proxy.Interface refuses (%s) a callback of exactly the method's shape after the context: %s / %s for %s" % (
+                        r["verdict"], r["ins"], r["outs"], r["method"]), r)
+        for r in shapes:
+            if r["verdict"] != "accepted" and not r["untouched"]:
+                ck.impl_violation("rejected-call-changed-variable", "proxy.Interface refused a callback (%s / %s) but the interface variable was altered" % (r["ins"], r["outs"]), r)
+                break
+        ck.notes["iface_shapes"] = {"cases": len(shapes), "accepted": sum(1 for r in shapes if r["verdict"] == "accepted"), "panic": sum(1 for r in shapes if r["verdict"] == "panic")}
+        ck.coverage["evaluations_shapes"] = len(shapes)
     ck.notes["mistake_classes"] = classes
-    ck.coverage["evaluations"] = len(rows)
+    ck.coverage["evaluations"] = len(rows) + len(shapes)
     ck.coverage["distinct_nontrivial"] = len({(r["class"], r["name"], r["premocked"]) for r in rows if r["rejected"]})
     ck.coverage["rule"] = ("every mistake class (callback arg/result count and size at each position, non-func callback, too few When args / Return values, wrong value sizes, unknown method/symbol, "
                            "non-function target, Interface misuse) x targets x {fresh, already mocked by another builder} x {no placeholder, origin placeholder}; SHA-1 of the whole text mapping before/after; "
